@@ -590,7 +590,9 @@ func ruleR09c(c *Check) {
 	for k := range groups {
 		keys = append(keys, k)
 	}
-	sort.Slice(keys, func(i, j int) bool { return c.P.FuncName(keys[i].fn)+keys[i].key < c.P.FuncName(keys[j].fn)+keys[j].key })
+	sort.Slice(keys, func(i, j int) bool {
+		return c.P.FuncName(keys[i].fn)+keys[i].key < c.P.FuncName(keys[j].fn)+keys[j].key
+	})
 	for _, k := range keys {
 		fn := k.fn
 		fname := c.P.FuncName(fn)
